@@ -1011,8 +1011,60 @@ fn dispatch(f: &[&str]) -> String {
             let data = match unhex(f[3]) { Some(d) => d, None => return "BADCASE".into() };
             op_fv3(ty, &data)
         }
+        "fvp" if f.len() == 3 => {
+            let data = match unhex(f[2]) { Some(d) => d, None => return "BADCASE".into() };
+            op_fvp(&data)
+        }
         _ => "BADCASE".into(),
     }
+}
+
+
+// ---- deserialize_any probe (C16 for Content-like targets: untagged / internally tagged enums and #[serde(flatten)] buffer their input through
+// deserialize_any and remember WHICH visit_* method was called): the dispatch must be the same from_value(v), T::deserialize(&v) and
+// from_str(&to_string(&v))
+#[derive(Debug, PartialEq)]
+enum Probe { Unit, None_, Some_(Box<Probe>), Bool(bool), U(u128), I(i128), F(u64), Str(Vec<u8>), Bytes(Vec<u8>), Seq(Vec<Probe>), Map(Vec<(Probe, Probe)>), Newtype(Box<Probe>) }
+struct ProbeV;
+impl<'de> de::Deserialize<'de> for Probe {
+    fn deserialize<D: de::Deserializer<'de>>(d: D) -> Result<Probe, D::Error> { d.deserialize_any(ProbeV) }
+}
+impl<'de> Visitor<'de> for ProbeV {
+    type Value = Probe;
+    fn expecting(&self, f: &mut fmt::Formatter) -> fmt::Result { f.write_str("anything") }
+    fn visit_unit<E: de::Error>(self) -> Result<Probe, E> { Ok(Probe::Unit) }
+    fn visit_none<E: de::Error>(self) -> Result<Probe, E> { Ok(Probe::None_) }
+    fn visit_some<D: de::Deserializer<'de>>(self, d: D) -> Result<Probe, D::Error> { Ok(Probe::Some_(Box::new(de::Deserialize::deserialize(d)?))) }
+    fn visit_newtype_struct<D: de::Deserializer<'de>>(self, d: D) -> Result<Probe, D::Error> { Ok(Probe::Newtype(Box::new(de::Deserialize::deserialize(d)?))) }
+    fn visit_bool<E: de::Error>(self, v: bool) -> Result<Probe, E> { Ok(Probe::Bool(v)) }
+    fn visit_u64<E: de::Error>(self, v: u64) -> Result<Probe, E> { Ok(Probe::U(v as u128)) }
+    fn visit_i64<E: de::Error>(self, v: i64) -> Result<Probe, E> { Ok(Probe::I(v as i128)) }
+    fn visit_u128<E: de::Error>(self, v: u128) -> Result<Probe, E> { Ok(Probe::U(v)) }
+    fn visit_i128<E: de::Error>(self, v: i128) -> Result<Probe, E> { Ok(Probe::I(v)) }
+    fn visit_f64<E: de::Error>(self, v: f64) -> Result<Probe, E> { Ok(Probe::F(v.to_bits())) }
+    fn visit_str<E: de::Error>(self, v: &str) -> Result<Probe, E> { Ok(Probe::Str(v.as_bytes().to_vec())) }
+    fn visit_bytes<E: de::Error>(self, v: &[u8]) -> Result<Probe, E> { Ok(Probe::Bytes(v.to_vec())) }
+    fn visit_seq<A: de::SeqAccess<'de>>(self, mut a: A) -> Result<Probe, A::Error> {
+        let mut v = vec![];
+        while let Some(x) = a.next_element::<Probe>()? { v.push(x); }
+        Ok(Probe::Seq(v))
+    }
+    fn visit_map<A: de::MapAccess<'de>>(self, mut a: A) -> Result<Probe, A::Error> {
+        let mut v = vec![];
+        while let Some(k) = a.next_key::<Probe>()? { let x = a.next_value::<Probe>()?; v.push((k, x)); }
+        Ok(Probe::Map(v))
+    }
+}
+fn show_probe(r: Result<Probe, serde_json::Error>) -> String {
+    match r { Ok(p) => format!("{:?}", p).replace(' ', ""), Err(e) => format!("ERR:{}", code_name(&e)) }
+}
+fn op_fvp(data: &[u8]) -> String {
+    let v: Value = match serde_json::from_slice(data) { Ok(v) => v, Err(_) => return "SKIP".into() };
+    let text = match serde_json::to_string(&v) { Ok(t) => t, Err(_) => return "SKIP".into() };
+    let a = show_probe(serde_json::from_value::<Probe>(v.clone()));
+    let b = show_probe(<Probe as de::Deserialize>::deserialize(&v));
+    let c = show_probe(serde_json::from_str::<Probe>(&text));
+    format!("{} | {} | {}", a, b, c)
 }
 
 fn features() -> String {
